@@ -154,3 +154,50 @@ func GOMAXPROCS(n int) int {
 	}
 	return runtime.GOMAXPROCS(n)
 }
+
+// MapWriteBegin / MapWriteEnd bracket a map element write in packages whose unsynchronised shared
+// memory is modelled (instrumenter config "racy"). A map write is not atomic: the Go runtime marks
+// the map as being written for the duration of the assignment and any writer that arrives meanwhile
+// dies with "fatal error: concurrent map writes" (or, undetected, corrupts the map). The simulated
+// machine makes the duration visible: the writer parks between marking and writing. Only schedules
+// that real synchronisation allows can put a second writer there, so a report is never spurious.
+func MapWriteBegin(m any, site string) uintptr {
+	t := Cur()
+	if t == nil || t.IsDead() {
+		return 0
+	}
+	p := reflect.ValueOf(m).Pointer()
+	if p == 0 {
+		return 0
+	}
+	s := t.S
+	s.mu.Lock()
+	if s.mapW == nil {
+		s.mapW = map[uintptr]*Task{}
+	}
+	other := s.mapW[p]
+	if other == nil {
+		s.mapW[p] = t
+	}
+	s.mu.Unlock()
+	if other != nil && other != t {
+		s.Stat("probe.concurrent_map_write", 1)
+		s.Fail("concurrent-map-write", "task %s writes a map at %s while task %s is in the middle of writing the same map (unsynchronised: the Go runtime aborts the process with \"concurrent map writes\" or the map is corrupted)", t.Label, site, other.Label)
+		return 0
+	}
+	t.Yield("mapwrite")
+	return p
+}
+
+func MapWriteEnd(p uintptr) {
+	if p == 0 {
+		return
+	}
+	if t := Cur(); t != nil {
+		t.S.mu.Lock()
+		if t.S.mapW[p] == t {
+			delete(t.S.mapW, p)
+		}
+		t.S.mu.Unlock()
+	}
+}
